@@ -14,6 +14,7 @@
 (*         factory = self._cached_factory(fn, cache_subkey)     LockGet    *)
 (*       else:                                                             *)
 (*         nodes, ctx = super().transform_function(..)  TransformBegin     *)
+(*             (reading / parsing the source may raise) ParseFail          *)
 (*             (transform_ast may re-enter transform)   Nested             *)
 (*             (and may raise)                          TransformFail      *)
 (*         factory = _PythonFnFactory(..); factory.create(..)  TransformOk *)
@@ -154,6 +155,11 @@ LockGet(t) ==
 TransformBegin(t) ==
   /\ At(t, "transform") /\ Goto(t, "transforming")
   /\ UNCHANGED <<fns, used, cache, owner, depth, ntr, facEnv, returned, cnt>>
+(* reading / parsing the source fails before transform_ast is entered (e.g. no source available) *)
+ParseFail(t) ==
+  /\ At(t, "transform") /\ cnt.fail < MaxFail /\ Goto(t, "failrel")
+  /\ cnt' = [cnt EXCEPT !.fail = @ + 1]
+  /\ UNCHANGED <<fns, used, cache, owner, depth, ntr, facEnv, returned>>
 (* transform_ast of the top frame asks the same transpiler to convert another function *)
 Nested(t, f, o) ==
   /\ At(t, "transforming") /\ Len(stack[t]) < MaxDepth /\ cnt.nest < MaxNest /\ f \in fns
@@ -245,7 +251,7 @@ SomeRedefine  == \E f \in fns : Redefine(f)
 SomeCollect   == \E c \in Codes : Collect(c)
 Step(t) == \/ HasBegin(t) \/ FastRead(t) \/ HasEnd(t) \/ FastGet(t)
            \/ Acquire(t) \/ ReCheck(t) \/ LockGet(t)
-           \/ TransformBegin(t) \/ TransformFail(t) \/ TransformOk(t) \/ SomeNested(t)
+           \/ TransformBegin(t) \/ ParseFail(t) \/ TransformFail(t) \/ TransformOk(t) \/ SomeNested(t)
            \/ Store(t) \/ Release(t) \/ ReleaseFail(t) \/ Raise(t)
            \/ Instantiate(t) \/ Return(t)
            \/ MRelease(t) \/ MStore(t)
@@ -267,7 +273,7 @@ FairSpec == Spec /\ \A t \in Threads : WF_vars(Step(t))
 (* is checked as well (smaller constants in the quick tier, see vf/props/c10.py).   *)
 LocalPcs == {"fast", "fastrdd", "fastget", "recheck", "lockget", "transform", "inst", "ret", "raise"}
 Local(t) == \/ HasBegin(t) \/ HasEnd(t) \/ FastGet(t) \/ ReCheck(t) \/ LockGet(t)
-            \/ TransformBegin(t) \/ Instantiate(t) \/ Return(t) \/ Raise(t)
+            \/ TransformBegin(t) \/ ParseFail(t) \/ Instantiate(t) \/ Return(t) \/ Raise(t)
 LocalPending == \E t \in Threads : Busy(t) /\ Top(t).pc \in LocalPcs
 RNext == IF LocalPending THEN \E t \in Threads : Local(t) ELSE Next
 RSpec == Init /\ [][RNext]_vars
